@@ -7,11 +7,9 @@ import Comrak.Lemmas.Xml
 namespace Comrak
 open Bytes
 
-/-- Is this piece of a start tag comrak's own `sourcepos` attribute?  (`.raw` pieces are the
-    verbatim payload of an `EscapedTag` node: document data, never erased.) -/
+/-- Is this piece of a start tag comrak's own `sourcepos` attribute? -/
 def isXmlSpAttr : XAttr → Bool
   | .mk n _ => n == XS.a_sourcepos
-  | .raw _ => false
 
 /-- Remove the `sourcepos` attribute from a start tag. -/
 def eraseXmlSpTok : XTok → XTok
@@ -40,11 +38,11 @@ def withXmlSp (o : XmlOpts) (b : Bool) : XmlOpts := { o with sourcepos := b }
 @[simp] theorem xne_a_label : (XS.a_label == XS.a_sourcepos) = false := by decide
 @[simp] theorem xne_a_completed : (XS.a_completed == XS.a_sourcepos) = false := by decide
 @[simp] theorem xne_a_multiline : (XS.a_multiline == XS.a_sourcepos) = false := by decide
+@[simp] theorem xne_a_tag : (XS.a_tag == XS.a_sourcepos) = false := by decide
 @[simp] theorem xeq_a_sourcepos : (XS.a_sourcepos == XS.a_sourcepos) = true := by decide
 
 @[simp] theorem isXmlSpAttr_xAttr (n v : Bytes) : isXmlSpAttr (xAttr n v) = (n == XS.a_sourcepos) := rfl
 @[simp] theorem isXmlSpAttr_xAttrE (n v : Bytes) : isXmlSpAttr (xAttrE n v) = (n == XS.a_sourcepos) := rfl
-@[simp] theorem isXmlSpAttr_raw (s : Bytes) : isXmlSpAttr (.raw s) = false := rfl
 @[simp] theorem isXmlSpAttr_preserve : isXmlSpAttr preserveAttr = false := by
   simp [preserveAttr]
 
